@@ -82,10 +82,30 @@ def run(ctx):
     profiles, profpath, geo = wsconn_lib.make_profiles(ctx, binpath)
     jobs = wsconn_lib.plan(ctx, geo)
     drv = wsconn_lib.Driver(binpath, profpath, ["-par", "96", "-soft", "1500" if q else "2500", "-patient", "5000" if q else "15000"])
+    # a second broker with mqtt.max_packet_size = 512: the limit is per MQTT packet, not per WebSocket message
+    packpath = os.path.join(ctx.tmp("wsprof2"), "profiles_pack.json")
+    with open(packpath, "w") as fh:
+        json.dump([p for p in profiles if p["name"] == "pack"], fh)
+    drv2 = wsconn_lib.Driver(binpath, packpath, ["-par", "32", "-soft", "1500" if q else "2500", "-patient", "5000" if q else "15000",
+                                                 "-maxpkt", str(wsconn_lib.PACK_MAXPKT)])
     design = {}
-    results = wsconn_lib.run_jobs(ctx, geo, jobs, drv, extra_threads=[threading.Thread(target=design_level, args=(ctx, design, w)) for w in ("bin", "text", "impl")])
+    pack_results = []
+    def pack_side():
+        pack_results.extend(wsconn_lib.run_jobs(ctx, geo, wsconn_lib.plan_pack(ctx, geo), drv2))
+    results = wsconn_lib.run_jobs(ctx, geo, jobs, drv, extra_threads=[threading.Thread(target=design_level, args=(ctx, design, w)) for w in ("bin", "text", "impl")]
+                                  + [threading.Thread(target=pack_side)])
     t1 = vlib.time.time() - ctx.t0
     summary, divs = drv.finish(240 if q else 1200)
+    summary2, divs2 = drv2.finish(240 if q else 1200)
+    results += pack_results
+    divs += divs2
+    for k in ("n", "nontrivial", "strict", "text", "messages", "bytes", "diverging_scenarios"):
+        summary[k] = summary.get(k, 0) + summary2.get(k, 0)
+    for k, v in (summary2.get("per_family") or {}).items():
+        summary["per_family"][k] = summary["per_family"].get(k, 0) + v
+    for k, v in (summary2.get("by_signature") or {}).items():
+        summary["by_signature"][k] = summary["by_signature"].get(k, 0) + v
+    ctx.cov["small_max_packet_size_run"] = {"max_packet_size": wsconn_lib.PACK_MAXPKT, "segmentations": summary2["n"]}
     ctx.cov["phases_s"] = {"enumeration_done": round(t1, 1), "driver_done": round(vlib.time.time() - ctx.t0, 1)}
 
     # ---- design level
